@@ -703,6 +703,9 @@ func (u *c04U) infDeliver(a int, except *c04Pod) bool {
 	} else {
 		p.addDone = true
 		p.obj = obj
+		if v.node == "" && p.boundBegun {
+			p.staleAfterBound = true // conc: the delivery overlapped PostBind
+		}
 		if v.node != "" {
 			p.boundDone = true
 		}
@@ -854,6 +857,8 @@ func (u *c04U) eligibleLocked(p *c04Pod) bool {
 
 type c04Verdict struct{ sig, msg string }
 
+var c04Debug func(u *c04U, p *c04Pod, state string)
+
 func (u *c04U) fail(v *c04Verdict) {
 	if v != nil {
 		u.c.Fail(v.sig, "%s", v.msg)
@@ -884,10 +889,11 @@ func (u *c04U) holdingLocked(g *c04Gang, s c04Snap) (exists bool, w, b int) {
 }
 
 // releaseLocked is oracle (1) for one group at a release by/through pod p.
-func (u *c04U) releaseLocked(grp *c04Group, by *c04Pod, s c04Snap, how string) (v *c04Verdict, state string, ok bool) {
+func (u *c04U) releaseLocked(grp *c04Group, by *c04Pod, s c04Snap, how string) (v *c04Verdict, state string, ok, okByCounts bool) {
 	byCfg := u.gangCfg(by.gang)
 	state = fmt.Sprintf("%s/%s", byCfg.policy, byCfg.mode)
 	allOK := true
+	okByCounts = true
 	var firstBad *c04Verdict
 	for _, g := range grp.gangs {
 		exists, w, b := u.holdingLocked(g, s)
@@ -904,9 +910,13 @@ func (u *c04U) releaseLocked(grp *c04Group, by *c04Pod, s c04Snap, how string) (
 			good = w+b >= cfg.min
 		default:
 			good = w >= cfg.min || grp.satisfied
+			if exists && w < cfg.min {
+				okByCounts = false
+			}
 		}
 		if !good {
 			allOK = false
+			okByCounts = false
 			if why == "" {
 				why = fmt.Sprintf("has min=%d under policy %s but only %d member(s) waiting and %d bound hold resources (group once-satisfied=%v)", cfg.min, cfg.policy, w, b, grp.satisfied)
 			}
@@ -921,9 +931,9 @@ func (u *c04U) releaseLocked(grp *c04Group, by *c04Pod, s c04Snap, how string) (
 	}
 	if byCfg.policy == extension.GangMatchPolicyOnceSatisfied && grp.satisfied {
 		// the group has been satisfied before: the statement constrains nothing
-		return nil, state + "|once-satisfied", allOK
+		return nil, state + "|once-satisfied", allOK, okByCounts
 	}
-	return firstBad, state, allOK
+	return firstBad, state, allOK, okByCounts
 }
 
 func minC04(a, b int) int {
@@ -1014,7 +1024,7 @@ func (u *c04U) checkAllows(evs []c04Ev, by *c04Pod, s c04Snap, how string) *c04V
 		}
 		seen[grp] = true
 		if by == nil || grp != by.gang.group {
-			if v, _, _ := u.releaseLocked(grp, e.wp.p, s, how); v != nil {
+			if v, _, _, _ := u.releaseLocked(grp, e.wp.p, s, how); v != nil {
 				return v
 			}
 		}
@@ -1086,7 +1096,7 @@ func (u *c04U) cycle(a int, nodeFound bool, between []c04Intent) bool {
 		p.held = true
 		p.fw = 2
 		u.binding = append(u.binding, p)
-		v, state, _ := u.releaseLocked(grp, p, snap, "Permit=Success")
+		v, state, _, _ := u.releaseLocked(grp, p, snap, "Permit=Success")
 		if grp.deleteWhileHeldSinceLastPermit {
 			u.c.Count("delete_between_permits", 1)
 			grp.deleteWhileHeldSinceLastPermit = false
@@ -1109,8 +1119,7 @@ func (u *c04U) cycle(a int, nodeFound bool, between []c04Intent) bool {
 		p.held = true
 		p.fw = 1
 		p.wp = w
-		_, state, allOK := u.releaseLocked(grp, p, snap, "")
-		onceSat := u.gangCfg(p.gang).policy == extension.GangMatchPolicyOnceSatisfied && grp.satisfied
+		_, state, allOK, okByCounts := u.releaseLocked(grp, p, snap, "")
 		if grp.deleteWhileHeldSinceLastPermit {
 			u.c.Count("delete_between_permits", 1)
 			grp.deleteWhileHeldSinceLastPermit = false
@@ -1122,10 +1131,17 @@ func (u *c04U) cycle(a int, nodeFound bool, between []c04Intent) bool {
 		u.c.Count("permit_wait", 1)
 		u.c.Seen("wait", state)
 		u.waited = true
-		if allOK {
+		// (2) the converse is counted, never a verdict
+		if okByCounts {
 			u.c.Count("converse_misses_wait_though_every_gang_has_min", 1)
-		} else if onceSat {
+			if c04Debug != nil {
+				c04Debug(u, p, state)
+			}
+		} else if allOK {
 			u.c.Count("converse_misses_wait_though_once_satisfied_before", 1)
+			if c04Debug != nil {
+				c04Debug(u, p, "ONCE "+state)
+			}
 		}
 		u.fail(u.checkAllows(evs, nil, snap, "Permit=Wait"))
 	case PodGroupNotFound:
